@@ -9,17 +9,17 @@ EXTENDS Integers, Sequences
 LmBase == [id |-> "lm", nf |-> 5, off |-> <<5, 20, 40, 45, 70>>,
            span |-> <<<<0, 1>>, <<2, 3>>, <<4>>, <<4, 5, 6>>, <<6, 7>>>>,
            pre |-> <<<<>>, <<>>, <<>>, <<>>, <<4>>>>, prio |-> <<1, 2>>,
-           lm |-> "prefetch", loff |-> 40, size |-> 100, cs |-> 10, cfg |-> 30, thr |-> 0,
+           lm |-> "prefetch", loff |-> 40, size |-> 100, cs |-> 10, cfg |-> 30, thr |-> 0, f0 |-> <<8, 9>>, rd |-> <<1, 2, 3, 4, 5>>,
            np |-> 2, nw |-> 2, nb |-> 2]
 \* no-prefetch landmark (file 1)
 NoLm == [id |-> "nolm", nf |-> 3, off |-> <<5, 10, 35>>,
          span |-> <<<<0>>, <<1, 2>>, <<3, 4>>>>, pre |-> <<<<>>, <<>>, <<>>>>, prio |-> <<>>,
-         lm |-> "noprefetch", loff |-> 5, size |-> 70, cs |-> 10, cfg |-> 50, thr |-> 0,
+         lm |-> "noprefetch", loff |-> 5, size |-> 70, cs |-> 10, cfg |-> 50, thr |-> 0, f0 |-> <<5, 6>>, rd |-> <<1, 2, 3>>,
          np |-> 2, nw |-> 2, nb |-> 2]
 \* no landmark at all (legacy stargz): configured size decides
 NoneBase == [id |-> "none", nf |-> 3, off |-> <<5, 20, 40>>,
              span |-> <<<<0, 1>>, <<2, 3>>, <<4, 5>>>>, pre |-> <<<<>>, <<>>, <<2>>>>, prio |-> <<>>,
-             lm |-> "none", loff |-> 0, size |-> 80, cs |-> 10, cfg |-> 20, thr |-> 0,
+             lm |-> "none", loff |-> 0, size |-> 80, cs |-> 10, cfg |-> 20, thr |-> 0, f0 |-> <<6, 7>>, rd |-> <<1, 2, 3>>,
              np |-> 2, nw |-> 2, nb |-> 2]
 
 With(r, id, cfg, thr) == [r EXCEPT !.id = id, !.cfg = cfg, !.thr = thr]
@@ -32,9 +32,9 @@ Scen ==
       With(NoneBase, "none-big-async", 500, 90) } \* ... and the threshold lies between blob size and cfg
 
 \* smaller process sets for the liveness run
-Small(r) == [r EXCEPT !.np = 1, !.nw = 2, !.nb = 1]
+Small(r) == [r EXCEPT !.np = 1, !.nw = 2, !.nb = 1, !.rd = <<2>>]
 ScenSmall == {Small(s) : s \in Scen}
 \* quick tier: one BackgroundFetch caller
-Quick(r) == [r EXCEPT !.np = 1, !.nb = 1]
-ScenQuick == {Quick(s) : s \in Scen} \cup {[LmBase EXCEPT !.nw = 1], [NoneBase EXCEPT !.id = "none-mid", !.cfg = 25, !.nw = 1]}
+Quick(r) == [r EXCEPT !.np = 1, !.nb = 1, !.rd = IF r.nf = 5 THEN <<2, 4, 5>> ELSE <<2, 3>>]
+ScenQuick == {Quick(s) : s \in Scen}
 =============================================================================
